@@ -32,6 +32,12 @@ var multiViaHTTP bool
 func runMulti(rt *rapid.T, st *stats.Collector, focus []string, gapCheck bool) (*World, *multiSummary) {
 	w := NewWorld(rt, st, env.Options{}, focus...)
 	w.ViaHTTP = multiViaHTTP
+	if w.ViaHTTP && rapid.IntRange(0, 2).Draw(rt, "writesThroughV1") == 0 {
+		w.V1Writes = true
+		if st != nil {
+			st.Class("writes-through-v1-routes")
+		}
+	}
 	w.Narrow = rapid.Bool().Draw(rt, "narrowPool")
 	sum := &multiSummary{}
 	fs := GenFeatures(rt)
@@ -145,6 +151,34 @@ func runMulti(rt *rapid.T, st *stats.Collector, focus []string, gapCheck bool) (
 				pendingLog[l.Name]++
 				sum.Failures++
 			}
+		},
+		"createScript": func(t *rapid.T) {
+			// the same references through the script form of the create routes (error mapping of its own on v1)
+			l := pick(t)
+			r := TxRequest{Script: fmt.Sprintf("send [USD/2 %d] (\n  source = @world\n  destination = @%s\n)\n", rapid.IntRange(1, 40).Draw(t, "amount"), rapid.SampledFrom([]string{"a", "bank", "u:1"}).Draw(t, "dst")),
+				ScriptAccMeta: map[string]map[string]string{}}
+			if rapid.IntRange(0, 3).Draw(t, "withRef") != 0 {
+				r.Reference = rapid.SampledFrom(refPool).Draw(t, "ref")
+			}
+			want := ErrNone
+			if r.Reference != "" && l.Refs[r.Reference] {
+				want = ErrReferenceConflict
+			}
+			before := w.Env.Sim.Dump()
+			out := w.CreateTx(l, r)
+			if out.Kind != want {
+				w.V("C14|C19", "ledger %s: create by script ref=%q: outcome %q (%v), the model expects %q\n%s", l.Name, r.Reference, out.Kind, out.Err, want, w.allHistories())
+			}
+			if out.Kind == ErrReferenceConflict {
+				sum.RefConflicts++
+				if after := w.Env.Sim.Dump(); !reflect.DeepEqual(before, after) {
+					w.V("C14", "ledger %s: create by script ref=%q was refused with a reference conflict but left a trace\n%s\n%s", l.Name, r.Reference, dumpDiff(before, after), w.allHistories())
+				}
+			}
+			if out.Kind != ErrNone {
+				sum.Failures++
+			}
+			afterCommit(l, out)
 		},
 		"revert": func(t *rapid.T) {
 			l := pick(t)
